@@ -44,7 +44,7 @@ DTYPES = ['float64', 'float64', 'float64', 'float32', 'int64', 'int32']
 
 
 def generate(rng, tier, shard, nshards):
-    n = 260 if tier == 'quick' else 8000
+    n = 1200 if tier == "quick" else 40000
     for i in range(n):
         r = rng.random()
         if r < 0.12:
